@@ -682,7 +682,7 @@ fn gen_payload(rng: &mut Rng, thorough: bool) -> Vec<u8> {
         16 | 17 => rng.range(248, 258),
         18 => rng.range(500, 700),
         _ => {
-            if thorough {
+            if thorough && rng.chance(1, 8) {
                 rng.range(64000, 64020)
             } else {
                 rng.range(60, 248)
